@@ -58,7 +58,7 @@ def _shape_check(res, lst):
         return   # a single selected value is documented to come back as a WireVector
     if isinstance(lst, list):
         if not isinstance(res, M.Matrix) or res.rows != len(lst) or res.columns != len(lst[0]):
-            raise AssertionError('result shape %r, expected %dx%d' % (
+            raise gencheck.StructuralMismatch('result shape %r, expected %dx%d' % (
                 (getattr(res, 'rows', None), getattr(res, 'columns', None)), len(lst), len(lst[0])))
 
 
@@ -536,9 +536,14 @@ def cases(tier, seed):
                     out.append({'op': op, 'r': r, 'c': k, 'bits': bits, 'bits2': b2, 'form': form})
         out.append({'op': 'matmul', 'r': 2, 'c': 2, 'bits': 2, 'r2': 2, 'c2': 2, 'bits2': 2, 'form': form})
         out.append({'op': 'matmul', 'r': 1, 'c': 2, 'bits': 2, 'r2': 2, 'c2': 2, 'bits2': 3, 'form': form})
+        # `a @= b` whose result has another shape than a (fewer / more columns): the statement rebinds a to what __imatmul__ returns
+        for (r, k), (r2, k2) in (((2, 3), (3, 2)), ((2, 2), (2, 3)), ((1, 3), (3, 1)), ((2, 1), (1, 3))):
+            out.append({'op': 'matmul', 'r': r, 'c': k, 'bits': 2, 'r2': r2, 'c2': k2, 'bits2': 2, 'form': form})
         out.append({'op': 'pow', 'r': 2, 'c': 2, 'bits': 2, 'p': 2, 'form': form})
         out.append({'op': 'pow', 'r': 2, 'c': 2, 'bits': 2, 'p': 0, 'form': form})
-    for (r, k), (r2, k2) in (((1, 3), (1, 3)), ((3, 1), (3, 1)), ((1, 1), (2, 3)), ((2, 2), (1, 1)), ((1, 3), (3, 1)), ((3, 1), (1, 3))):
+    for (r, k), (r2, k2) in (((1, 3), (1, 3)), ((3, 1), (3, 1)), ((1, 1), (2, 3)), ((2, 2), (1, 1)), ((1, 3), (3, 1)), ((3, 1), (1, 3)),
+                             # a 1x1 Matrix is a scalar, also next to a row or column vector
+                             ((1, 1), (1, 3)), ((1, 1), (3, 1)), ((1, 3), (1, 1)), ((3, 1), (1, 1)), ((1, 2), (1, 1)), ((1, 1), (2, 1))):
         out.append({'op': 'dot', 'r': r, 'c': k, 'bits': 2, 'r2': r2, 'c2': k2, 'bits2': 3})
     for n, b, p in ((1, 3, 3), (2, 2, 0), (2, 2, 1), (2, 2, 2), (2, 1, 3), (3, 1, 2)) + (((2, 2, 3), (3, 2, 2)) if tier != 'quick' else ()):
         out.append({'op': 'pow', 'r': n, 'c': n, 'bits': b, 'p': p})
